@@ -42,6 +42,7 @@ import (
 	"errors"
 	"fmt"
 	"net"
+	"strconv"
 	"strings"
 	"sync"
 	"sync/atomic"
@@ -446,6 +447,90 @@ func runWrite(c *fw.Ctx, ord *int64) {
 	c.Scope("w2:all source/destination pairs x patterns x lengths", "bound_ips", "nil, 0.0.0.0, 255.255.255.255(16-byte), 10.0.0.1, 127.255.0.1(16-byte), 10.0.0.1(16-byte)",
 		"destination_ips", "0.0.0.0(16-byte), 255.255.255.255, 10.0.0.1(16-byte), 127.255.0.1", "ports", ports, "patterns", patNames,
 		"lengths", map[bool]string{false: "0,1,2,3,1499,1500", true: "0..1500 (every one)"}[c.Thorough()], "cases", n2)
+	// (w4) histories on ONE connection: the caller reuses its destination value and its payload buffer, overwriting both in
+	// place between writes (every frame still carries the destination, ports, payload and checksums of its own write)
+	{
+		dsts := []net.IP{{255, 255, 255, 255}, {10, 0, 0, 2}, {10, 0, 0, 3}, {192, 168, 1, 1}, {0, 0, 0, 0}}
+		dports := []int{67, 1067}
+		plens := []int{0, 1, 301}
+		nD := len(dsts) * len(dports)
+		n4 := int64(nD * nD * nD * len(plens) * 2)
+		base := *ord
+		c.Range(n4, func(i int64) {
+			x := int(i)
+			sixteen := x%2 == 1
+			x /= 2
+			pl := plens[x%len(plens)]
+			x /= len(plens)
+			var steps [3]int
+			for k := range steps {
+				steps[k] = x % nD
+				x /= nD
+			}
+			s := &scripted{}
+			bound := &net.UDPAddr{IP: net.IP{10, 0, 0, 1}, Port: 68}
+			conn := nclient4.NewBroadcastUDPConn(s, bound)
+			mk := func(ip net.IP) net.IP {
+				if sixteen {
+					return net.IPv4(ip[0], ip[1], ip[2], ip[3])
+				}
+				return clone(ip)
+			}
+			addr := &net.UDPAddr{IP: mk(dsts[steps[0]/len(dports)]), Port: dports[steps[0]%len(dports)]}
+			payload := make([]byte, pl)
+			var in []string
+			for k, st := range steps {
+				d, dp := dsts[st/len(dports)], dports[st%len(dports)]
+				copy(addr.IP, mk(d)) // in place: the same *net.UDPAddr and the same backing array for every write
+				addr.Port = dp
+				for j := range payload {
+					payload[j] = byte(j*3 + k*0x55 + 1)
+				}
+				want := append([]byte(nil), payload...)
+				in = append(in, fmt.Sprintf("WriteTo(%d bytes pattern %d, %s:%d)", pl, k, ip4s(to4(d)), dp))
+				rep := func(clause, obs string) {
+					c.Report(fw.Violation{Fingerprint: "BroadcastRawUDPConn.WriteTo|history:" + clause + "|write " + strconv.Itoa(k+1), Order: base + i, Scope: "w4:write histories",
+						Input:    "one connection bound to 10.0.0.1:68; the caller's *net.UDPAddr (IP bytes overwritten in place, " + map[bool]string{false: "4", true: "16"}[sixteen] + "-byte form) and payload buffer are reused: " + strings.Join(in, "; "),
+						Observed: obs, Expected: "a well-formed frame for this write's destination, port and payload with verifying checksums",
+						Explain: "what a connection remembers from earlier writes (a cached pseudo-header sum, a retained destination) must not leak into later frames"})
+				}
+				before := len(s.writes)
+				var werr error
+				if pv, stk := fw.Safe(func() { _, werr = conn.WriteTo(payload, addr) }); pv != nil {
+					rep("panic", fmt.Sprintf("panic: %v at %s", pv, stk))
+					return
+				}
+				if werr != nil || len(s.writes) != before+1 {
+					rep("frames-per-datagram", fmt.Sprintf("err=%v, %d frames written by this call", werr, len(s.writes)-before))
+					return
+				}
+				f := s.writes[before].b
+				ip, u, perr := ipref.ParseFrame(f)
+				switch {
+				case perr != nil:
+					rep("not-well-formed", "reference parser: "+ipref.ReasonOf(perr)+" frame "+fw.HexShort(f))
+				case ip.Dst != to4(d) || int(u.DstPort) != dp || ip.Src != [4]byte{10, 0, 0, 1} || u.SrcPort != 68:
+					rep("addresses", fmt.Sprintf("frame goes %s:%d -> %s:%d", ip4s(ip.Src), u.SrcPort, ip4s(ip.Dst), u.DstPort))
+				case string(u.Payload) != string(want):
+					rep("payload", "payload "+fw.HexShort(u.Payload)+", written "+fw.HexShort(want))
+				case !ipref.HeaderChecksumOK(ip.Header):
+					rep("header-checksum", "IP header checksum does not verify; frame "+fw.HexShort(f))
+				case ipref.VerifyUDP(ip, u) == ipref.UDPBad:
+					rep("udp-checksum", "UDP checksum does not verify under RFC 768; frame "+fw.HexShort(f))
+				}
+			}
+			// frames written earlier must not have been rewritten by later writes (the scripted conn copies, so this
+			// only guards the harness) - and the caller's values are the caller's: WriteTo must not have changed them
+			if addr.Port != dports[steps[2]%len(dports)] || to4(addr.IP) != to4(dsts[steps[2]/len(dports)]) {
+				c.Report(fw.Violation{Fingerprint: "BroadcastRawUDPConn.WriteTo|history:caller-address-modified", Order: base + i, Scope: "w4:write histories",
+					Input: strings.Join(in, "; "), Observed: "the caller's destination value reads " + addr.String() + " after the writes", Expected: "unchanged"})
+			}
+			c.Nontrivial(1)
+		})
+		*ord += n4
+		c.Scope("w4:write histories on one connection (caller reuses and overwrites its destination value and payload buffer)", "destinations", "255.255.255.255, 10.0.0.2, 10.0.0.3, 192.168.1.1, 0.0.0.0 x ports 67, 1067",
+			"history_length", 3, "payload_lengths", plens, "ip_forms", "4-byte, 16-byte", "cases", n4)
+	}
 	checkWriteBadAddr(c, *ord)
 	*ord += 8
 	c.Scope("w3:non-*net.UDPAddr destination", "kinds", "nil, *net.IPAddr, *net.TCPAddr, *net.UnixAddr, foreign type")
@@ -1194,17 +1279,21 @@ func runRead(c *fw.Ctx, ord *int64) {
 		*ord += n2
 		c.Scope("r3:destination port and address", "ports", "0..65535 (all) to 10.0.0.1 and 10.0.0.2", "address", "each byte of 10.0.0.1 replaced by each of 256 values", "bound", boundNames, "cases", n+n2)
 	}
-	// (r4) payload length x caller buffer size x padding
+	// (r4) payload length x caller buffer size x padding x IP header length (options): a datagram that exactly fills the
+	// caller's buffer behind the longest IP header is still a datagram
 	{
 		base := *ord
 		const maxPay, maxBuf = 64, 70
-		n := int64((maxPay + 1) * (maxBuf + 1) * 2 * nBound)
+		ihls := []int{5, 6, 10, 15}
+		n := int64((maxPay + 1) * (maxBuf + 1) * 2 * nBound * len(ihls))
 		c.Range(n, func(i int64) {
 			x := int(i)
 			bi := x % nBound
 			x /= nBound
 			pad := []int{0, 6}[x%2]
 			x /= 2
+			ihl := ihls[x%len(ihls)]
+			x /= len(ihls)
 			bs := x % (maxBuf + 1)
 			pl := x / (maxBuf + 1)
 			p := make([]byte, pl)
@@ -1215,7 +1304,11 @@ func runRead(c *fw.Ctx, ord *int64) {
 			for k := range pd {
 				pd[k] = 0xee
 			}
-			f := ipref.Build(ipref.Spec{Src: [4]byte{192, 168, 5, 5}, Dst: me, SrcPort: 67, DstPort: 68, Payload: p, Padding: pd})
+			opts := make([]byte, 4*(ihl-5))
+			for k := range opts {
+				opts[k] = 1 // no-operation
+			}
+			f := ipref.Build(ipref.Spec{Src: [4]byte{192, 168, 5, 5}, Dst: me, SrcPort: 67, DstPort: 68, Payload: p, Padding: pd, Options: opts})
 			fr := [][]byte{f, follow}
 			ex := []expect{classify(f, bi, bs), classify(follow, bi, bs)}
 			if ex[0].kind == kDeliver {
@@ -1224,7 +1317,34 @@ func runRead(c *fw.Ctx, ord *int64) {
 			runSeq(c, "r4:payload length x buffer size", base+i, bi, bs, fr, func(k int) expect { return ex[k] })
 		})
 		*ord += n
-		c.Scope("r4:payload length x caller buffer length x padding", "payload", "0..64 (all)", "len(b)", "0..70 (all)", "padding", "0, 6", "bound", boundNames, "cases", n)
+		c.Scope("r4:payload length x caller buffer length x padding x IP header length", "payload", "0..64 (all)", "len(b)", "0..70 (all)", "padding", "0, 6", "ihl", "5, 6, 10, 15", "bound", boundNames, "cases", n)
+		// the same at the sizes the client really uses: len(b) = 1500, payloads 1400..1500, every IP header length
+		base = *ord
+		n2 := int64(101 * 11 * nBound)
+		c.Range(n2, func(i int64) {
+			x := int(i)
+			bi := x % nBound
+			x /= nBound
+			ihl := 5 + x%11
+			pl := 1400 + x/11
+			p := make([]byte, pl)
+			for k := range p {
+				p[k] = byte(k*7 + 1)
+			}
+			opts := make([]byte, 4*(ihl-5))
+			for k := range opts {
+				opts[k] = 1
+			}
+			f := ipref.Build(ipref.Spec{Src: [4]byte{192, 168, 5, 5}, Dst: me, SrcPort: 67, DstPort: 68, Payload: p, Options: opts})
+			fr := [][]byte{f, follow}
+			ex := []expect{classify(f, bi, 1500), classify(follow, bi, 1500)}
+			if ex[0].kind == kDeliver {
+				nontriv.Add(1)
+			}
+			runSeq(c, "r4b:payloads up to a full 1500-byte buffer x IP header length", base+i, bi, 1500, fr, func(k int) expect { return ex[k] })
+		})
+		*ord += n2
+		c.Scope("r4b:payloads up to a full 1500-byte buffer x IP header length", "payload", "1400..1500 (all)", "len(b)", 1500, "ihl", "5..15 (all)", "bound", boundNames, "cases", n2)
 	}
 	// (r5) all sequences over the alphabet
 	fullL, coreL := 2, 3
